@@ -122,6 +122,37 @@ pub fn compress_sweep(ctx: &Ctx, rep: &mut Report) {
         rep.count("grid_rows", 1);
     });
     rep.merge(r);
+    // LARGE encodings: long vectors and large coefficients whose encoding crosses 2^15, 2^16 and
+    // 2^17 bits (a write position or a length kept in a narrow integer wraps there), with the
+    // budget exactly fitting, one byte short, and generous
+    let big: Vec<(usize, &str)> = vec![(637, "edge"), (1024, "edge"), (1024, "uniform"), (1024, "half-edge"), (1160, "uniform"), (2048, "uniform"), (2048, "edge"), (4096, "small"), (8192, "small"), (16384, "zero"), (512, "edge"), (700, "edge")];
+    let r = par_for(big.len() * ctx.sz(2, 12), ncpu(), |job, rep| {
+        let (n, kind) = big[job % big.len()];
+        let mut rng = rng_for(ctx.seed, &format!("c07-big-{}", job));
+        let v: Vec<i64> = (0..n)
+            .map(|i| match kind {
+                "edge" => if rng.gen() { 12159 } else { -12159 },
+                "uniform" => rng.gen_range(-12159i64..=12159),
+                "half-edge" => if i % 2 == 0 { 12159 } else { rng.gen_range(-200i64..=200) },
+                "small" => rng.gen_range(-300i64..=300),
+                _ => 0,
+            })
+            .collect();
+        let bits = spec::compressed_bits(&v);
+        let fit = (bits + 7) / 8;
+        for l in [fit, fit.saturating_sub(1), fit + 1, fit + 4096, 8192, 16384] {
+            check_compress(&v, l, rep);
+        }
+        rep.count("large_encodings", 1);
+        for t in [1usize << 15, 1 << 16, 1 << 17] {
+            if bits >= t {
+                rep.count(&format!("large_encodings_above_2^{}_bits", t.trailing_zeros()), 1);
+            }
+        }
+        rep.nontrivial(format!("big|{}|{}|{}", n, kind, job).as_bytes());
+    });
+    rep.merge(r);
+    rep.require("large_encodings_above_2^16_bits", 4);
     // production sizes: vectors engineered to need 8L + d bits
     let reps = ctx.sz(6, 2000);
     let r = par_for(2 * reps, ncpu(), |job, rep| {
